@@ -21,6 +21,14 @@ THR0 = 5000          # set-compression thresholds are THR0 + position: frames st
 VERSIONS = {'play': [757, 340, 47, 498], 'login': [757, 404, 578]}
 
 
+class _Holder(object):
+    def __init__(self, fn):
+        self.fn = fn
+
+    def on_packet(self, pkt):
+        return self.fn(pkt)
+
+
 def execute(row, seed, version=None, share=False):
     from minecraft.networking.packets import Packet, AbstractKeepAlivePacket, clientbound as cb, serverbound as sb
     from minecraft.exceptions import IgnorePacket
@@ -157,6 +165,7 @@ def execute(row, seed, version=None, share=False):
             merged.append(pools[n].pop(0))
         late_regs = []
         decos = {}
+        as_method = rng.random() < 0.5
         reuse_deco = rng.random() < 0.6     # one decorator object (the value of c.listener(...)) applied to several functions
 
         def register(j):
@@ -173,6 +182,10 @@ def execute(row, seed, version=None, share=False):
                     c.disconnect(immediate=True)        # a listener may close its connection: only 'ignore' stops later stages
                 if l['ig']:
                     raise IgnorePacket
+            if as_method:
+                # the listener is a bound method of an object nothing else refers to (conn.register_packet_listener(
+                # Handler(...).on_packet, ...)): the connection keeps its listeners alive
+                cbk = _Holder(cbk).on_packet
             if share:
                 # one and the same callable for every registration of this list with this behaviour: each registration
                 # still is a listener of its own, at its own place in the order
